@@ -710,7 +710,7 @@ class Output(object):
             urcrnrlon = urcrnrlon + self._minLatLonRange/2.0
 
         # Check if we are wrapped across the dateline
-        if max(lons) - min(lons) > 180:
+        if max(lons) - min(lons) > 180 and np.any(lons > 0) and np.any(lons < 0):
             minEastLon = min(lons[lons > 0])
             maxWestLon = max(lons[lons < 0])
             if minEastLon - maxWestLon > 180:
